@@ -21,7 +21,7 @@ func init() {
 // recTypes returns the program alphabet of the recursive-plugin properties.
 func recTypes(tier string) (ts []*Ty, bound string) {
 	if tier == "thorough" {
-		return typesUpTo(3), "all types of constructor depth <= 2 (full basic alphabet at depth <= 1, six representative basics below), depth 3 over the reduced alphabet; top-level and field form"
+		return typesUpTo(3), "all types of constructor depth <= 2 over the full leaf alphabet (every basic kind, named basics, 14 named structs), depth 3 over the reduced alphabet; top-level and field form"
 	}
 	ts = typesUpTo(1)
 	seen := map[string]bool{}
@@ -83,8 +83,10 @@ func checkRec(prop, tier string) {
 	rep := newReporter(prop, tier)
 	cases, bound := buildRecCases(prop, tier)
 	env := []string{}
-	if tier == "thorough" {
-		env = append(env, "VERIF_VMAX=40", "VERIF_ELEMK=3", "VERIF_FUEL=4")
+	if tier == "thorough" && prop == "C03" {
+		env = append(env, "VERIF_VMAX=40", "VERIF_ELEMK=3", "VERIF_FUEL=4") // all triples: keep the pools smaller
+	} else if tier == "thorough" {
+		env = append(env, "VERIF_VMAX=64", "VERIF_ELEMK=4", "VERIF_FUEL=5")
 	} else {
 		env = append(env, "VERIF_VMAX=24", "VERIF_ELEMK=3", "VERIF_FUEL=4")
 	}
